@@ -709,6 +709,22 @@ pub fn run(tier: Tier) -> i32 {
                         for arrival in [vec![], vec![1usize]] {
                             for prior in [Prior::SlaveSilenceTimeout, Prior::Timeout(0), Prior::SeedRound] {
                                 let arrival = if prior == Prior::SeedRound { vec![0, 1] } else { arrival.clone() };
+                                // a slave-only instance whose port is SLAVE from the earlier round and now
+                                // gets decision M1/M2/M3 (E_best moved to the other port, or the parent
+                                // fell below D0): back to LISTENING
+                                if prior == Prior::SeedRound {
+                                    cases.push(Case {
+                                        own: *own,
+                                        n_ports,
+                                        master_only: vec![false; n_ports],
+                                        slave_only: true,
+                                        fms: vec![Fm { attr: *a, steps: 1, sender: SenderRel::Below, port: 0 }, Fm { attr: *b, steps: 0, sender: SenderRel::Above, port: pb }],
+                                        prior,
+                                        port_order: (0..n_ports).collect(),
+                                        arrival: arrival.clone(),
+                                        quality_change: qc,
+                                    });
+                                }
                                 cases.push(Case {
                                     own: *own,
                                     n_ports,
